@@ -81,6 +81,9 @@ class Parent(AbstractParent):
 
         location_parent_type = location.parent_type if location is not None else None
         sequence_seqtype = sequence.sequence_type if sequence is not None else None
+        # a built-in type may be spelled in any casing; compare its canonical member with the (canonical) types of the parts
+        if isinstance(sequence_type, str):
+            sequence_type = SequenceType.sequence_type_str_to_type(sequence_type)
         seq_type = _unique_value_or_none((sequence_type, location_parent_type, sequence_seqtype))
         # "chromosome" and SequenceType.CHROMOSOME are equal and hash alike, so which of the two the caches above hand back
         # depends on what was asked first; always answer with the canonical member
